@@ -113,10 +113,16 @@ func idxIterReads[X comparable](mk func() containers.IteratorWithIndex[X]) []Rea
 			return w
 		}, slices.Equal[[]int]),
 	}
-	if _, ok := mk().(containers.ReverseIteratorWithIndex[X]); ok {
+	// (whether the iterator is reversible is found out inside the operation:
+	// even creating an iterator is a read, and the catalogue is built before
+	// the phase in which the container is read for the first time)
+	{
 		out = append(out, rop("Iterator/backward", func() []idxPair[X] {
 			var w []idxPair[X]
-			it := mk().(containers.ReverseIteratorWithIndex[X])
+			it, ok := mk().(containers.ReverseIteratorWithIndex[X])
+			if !ok {
+				return nil
+			}
 			for it.End(); it.Prev(); {
 				w = append(w, idxPair[X]{it.Index(), it.Value()})
 			}
@@ -154,10 +160,13 @@ func keyIterReads[K comparable, V comparable](mk func() containers.IteratorWithK
 			return w
 		}, slices.Equal[[]K]),
 	}
-	if _, ok := mk().(containers.ReverseIteratorWithKey[K, V]); ok {
+	{
 		out = append(out, rop("Iterator/backward", func() []kvPair[K, V] {
 			var w []kvPair[K, V]
-			it := mk().(containers.ReverseIteratorWithKey[K, V])
+			it, ok := mk().(containers.ReverseIteratorWithKey[K, V])
+			if !ok {
+				return nil
+			}
 			for it.End(); it.Prev(); {
 				w = append(w, kvPair[K, V]{it.Key(), it.Value()})
 			}
